@@ -6,9 +6,11 @@
    models).  The *_refuted lemmas are the defects D18a-e: the code before each fix patch does
    not satisfy the statement. *)
 From Coq Require Import ZArith List Bool.
+From Coq Require String.
 From BV Require Import Base.Bytes Model.CodecsBase Gen.C18Tables.
 From BV Require Import Model.CodecsL2cap Model.CodecsRfcomm Model.CodecsSdp Model.CodecsUuid Model.CodecsAv.
 From BV Require Import Proofs.CodecsL2cap Proofs.CodecsRfcomm Proofs.CodecsSdp Proofs.CodecsUuid Proofs.CodecsAv.
+From BV Require Import Model.SpecCodec Model.CodecsRegistry Proofs.CodecsRegistry Gen.C18Registry.
 Import ListNotations.
 Open Scope Z_scope.
 
@@ -173,13 +175,13 @@ Print Assumptions C18_sdp_type_codes.
 Theorem C18_sdp_value_roundtrip : forall e fuel depth tail b,
   encode e = Some b -> elem_bytes_ok e = true -> (elem_depth e <= depth)%nat ->
   (length (b ++ tail) < fuel)%nat ->
-  parse_next fuel depth (b ++ tail) = POk e (length b) b true.
+  parse_next fuel depth (b ++ tail) = POk e (lenZ b) b true.
 Proof. exact encode_parse. Qed.
 Print Assumptions C18_sdp_value_roundtrip.
 
 Theorem C18_sdp_from_bytes_roundtrip : forall e b,
   elem_ok sdp_max_nesting e = true -> encode e = Some b ->
-  from_bytes sdp_max_nesting b = POk e (length b) b true.
+  from_bytes sdp_max_nesting b = POk e (lenZ b) b true.
 Proof. exact (sdp_value_roundtrip sdp_max_nesting). Qed.
 Print Assumptions C18_sdp_from_bytes_roundtrip.
 
@@ -187,14 +189,14 @@ Print Assumptions C18_sdp_from_bytes_roundtrip.
    exactly the octets consumed *)
 Theorem C18_sdp_bytes_roundtrip : forall fuel depth d e c raw,
   bytes_ok d = true -> parse_next fuel depth d = POk e c raw true ->
-  encode e = Some raw /\ c = length raw /\ raw = firstn c d /\ (c <= length d)%nat /\
+  encode e = Some raw /\ c = lenZ raw /\ raw = firstn (Z.to_nat c) d /\ c <= lenZ d /\
   elem_bytes_ok e = true /\ (elem_depth e <= depth)%nat.
 Proof. exact parse_encode. Qed.
 Print Assumptions C18_sdp_bytes_roundtrip.
 
 (* with the cache, bytes(parsed) is the consumed slice whatever the encoding *)
 Theorem C18_sdp_cached_bytes : forall fuel depth d e c raw cn,
-  parse_next fuel depth d = POk e c raw cn -> raw = firstn c d.
+  parse_next fuel depth d = POk e c raw cn -> raw = firstn (Z.to_nat c) d.
 Proof. exact parse_cache. Qed.
 Print Assumptions C18_sdp_cached_bytes.
 
@@ -335,6 +337,51 @@ Theorem C18_rtp_csrc_offset_refuted :
 Proof. exact rtp_unfixed_refuted. Qed.
 Print Assumptions C18_rtp_csrc_offset_refuted.
 
+(* ------------------------------------------------------------------ field-driven PDU classes *)
+(* Per-run obligations on the regenerated registry (Gen/C18Registry.v: every class of
+   L2CAP_Control_Frame.classes, ATT_PDU.pdu_classes, SMP_Command.smp_classes, SDP_PDU.subclasses
+   whose fields are all in the generic field codec's vocabulary): field lists well formed
+   ('*' only last, widths the codec has cases for), no (protocol, code) registered twice, and
+   translated + untranslated = everything registered. *)
+Theorem C18_registry_wf : wf_pregistry C18Registry.classes = true.
+Proof. exact registry_checked. Qed.
+Print Assumptions C18_registry_wf.
+
+Theorem C18_registry_keys_unique : pkeys_unique C18Registry.classes = true.
+Proof. exact registry_keys_checked. Qed.
+Print Assumptions C18_registry_keys_unique.
+
+Theorem C18_registry_complete :
+  (Datatypes.length C18Registry.classes + Datatypes.length C18Registry.untranslated)%nat = C18Registry.registered_total.
+Proof. exact registry_count_checked. Qed.
+Print Assumptions C18_registry_complete.
+
+(* every translated class, every in-range value list: fields -> bytes -> fields *)
+Theorem C18_registry_fields_roundtrip : forall c, In c C18Registry.classes ->
+  forall prev0 vs, in_range (p_fields c) prev0 vs = true ->
+  exists b n, serialize_fields (p_fields c) vs = Some b /\
+              parse_fields (p_fields c) prev0 b = Some (vs, n) /\ (n <= Datatypes.length b)%nat.
+Proof. exact gen_fields_roundtrip. Qed.
+Print Assumptions C18_registry_fields_roundtrip.
+
+(* bytes -> fields -> bytes: what the parser consumed is reproduced exactly *)
+Theorem C18_registry_bytes_roundtrip : forall c, In c C18Registry.classes ->
+  forall prev0 bs vs n, bytes_ok bs = true ->
+  parse_fields (p_fields c) prev0 bs = Some (vs, n) -> (n <= Datatypes.length bs)%nat ->
+  exists pad, serialize_fields (p_fields c) vs = Some (firstn n bs ++ pad) /\
+              (tight_fields (p_fields c) = true -> pad = []).
+Proof. exact gen_bytes_roundtrip. Qed.
+Print Assumptions C18_registry_bytes_roundtrip.
+
+(* whole PDU: header + fields -> bytes -> the same class, identifier and fields *)
+Theorem C18_registry_pdu_roundtrip : forall c, In c C18Registry.classes -> forall ident vs b,
+  (forall prev0, in_range (p_fields c) prev0 vs = true) ->
+  pdu_encode c ident vs = Some b ->
+  pdu_decode C18Registry.classes (p_proto c) b =
+  Some (c, (if (p_proto c =? 0) || (p_proto c =? 3) then ident else 0), vs).
+Proof. exact gen_pdu_roundtrip. Qed.
+Print Assumptions C18_registry_pdu_roundtrip.
+
 (* ------------------------------------------------------------------ non-vacuity *)
 Example C18_ex_sframe_poll :
   ecf_ok (SFrame {| s_function := 0; s_poll := 1; s_req_seq := 5; s_final := 0 |}) = true /\
@@ -358,7 +405,7 @@ Proof. vm_compute. repeat split; reflexivity. Qed.
 Example C18_ex_sdp_nested :
   let e := ESeq [EUInt 2 256; EText (repeat 65 256); EAlt [EBool true; ENil; EUuid [52; 18]]] in
   elem_ok sdp_max_nesting e = true /\
-  match encode e with Some b => from_bytes sdp_max_nesting b = POk e (length b) b true | None => False end.
+  match encode e with Some b => from_bytes sdp_max_nesting b = POk e (lenZ b) b true | None => False end.
 Proof. vm_compute. split; reflexivity. Qed.
 
 Example C18_ex_uuid_history :
@@ -370,6 +417,11 @@ Proof. vm_compute. reflexivity. Qed.
 Example C18_ex_address_string :
   addr_to_string ([1; 2; 3; 4; 5; 6], 0) = [48;54;58;48;53;58;48;52;58;48;51;58;48;50;58;48;49;47;80] /\
   addr_from_string (addr_to_string ([1; 2; 3; 4; 5; 6], 0)) 1 = Some ([1; 2; 3; 4; 5; 6], 0).
+Proof. vm_compute. split; reflexivity. Qed.
+
+Example C18_ex_registry :
+  (Nat.leb 55 (Datatypes.length C18Registry.classes)) = true /\
+  pdu_encode (mkp 1 2 String.EmptyString [F1 (UInt 2)]) 0 [VInt 517] = Some [2; 5; 2].
 Proof. vm_compute. split; reflexivity. Qed.
 
 Example C18_ex_rtp :
